@@ -1090,22 +1090,33 @@ class AsyncBackgroundBatcher(Generic[A_contra, R_co]):
         except KeyError:
             pass
         else:
-            return await fut
+            # Shield: the future is shared with every caller of this
+            # key, cancelling one caller must not cancel the others
+            return await aio.shield(fut)
 
         fut = self._retention_cache[key] = self._loop.create_future()
+        # Forget the future once it has its outcome, not when this
+        # caller leaves: this caller may be cancelled while the request
+        # is still queued or shared with other callers
+        fut.add_done_callback(partial(self._forget, key))
         await self._queue.put((key, arg, fut))
 
-        try:
-            return await fut
-        finally:
-            if self.retention_timeout > 0:
-                self._loop.call_later(
-                    self.retention_timeout,
-                    self._retention_cache.pop,
-                    key,
-                )
-            else:
-                del self._retention_cache[key]
+        return await aio.shield(fut)
+
+    def _forget(self, key: str, _fut: 'aio.Future[R_co]') -> None:
+        """
+        Remove a completed future from the retention cache, after the
+        retention timeout if there is one.
+        """
+        if self.retention_timeout > 0:
+            self._loop.call_later(
+                self.retention_timeout,
+                self._retention_cache.pop,
+                key,
+                None,
+            )
+        else:
+            self._retention_cache.pop(key, None)
 
     def _daemon_task(
         self,
